@@ -271,17 +271,20 @@ class Checker:
         if not found:
             raise AnalysisError('R12.3: the 3-vector branch of Wrench.__init__ was not recognised')
         for meth, lo, hi in (('getMoment', 0, 3), ('getForce', 3, 6)):
-            fi = self.wrench.methods.get(meth)
-            if fi is None:
+            if self.wrench.methods.get(meth) is None:
                 raise AnalysisError('anchor vanished: Wrench.' + meth)
+            from .common_ops import flat_method
+            from ..engine.model import const_value
+            fi = flat_method(self.wrench, meth)           # a shared block getter read in place
             rets = [n for n in walk_own(fi.node) if isinstance(n, ast.Return)]
+            il_g = Inliner(fi)
             ok = False
             for r in rets:
-                for sub in ast.walk(r):
+                for sub in ast.walk(il_g.expand(r.value) if r.value is not None else r):
                     if isinstance(sub, ast.Subscript) and src(sub.value) == 'self.data' and isinstance(sub.slice, ast.Slice):
                         try:
-                            ok = (sub.slice.lower.value, sub.slice.upper.value) == (lo, hi)
-                        except AttributeError:
+                            ok = (const_value(sub.slice.lower) if sub.slice.lower is not None else 0, const_value(sub.slice.upper)) == (lo, hi)
+                        except (AttributeError, ValueError):
                             ok = False
             rep.ob('R12.3', fi, 'returns self.data[%d:%d]' % (lo, hi), ok, '%s does not read rows %d:%d of the payload' % (meth, lo, hi))
         mk = self.model.func(FSR, 'makeWrench')
@@ -290,7 +293,9 @@ class Checker:
         ok, msg = False, 'makeWrench does not return Wrench(force_vector, position, frame)'
         if first is not None and isinstance(first.value, ast.Call) and src(first.value.func) == 'Wrench' and len(first.value.args) == 3:
             assigns = single_assignments(mk.node)
-            a0 = _resolve(first.value.args[0], assigns)
+            a0 = Inliner(mk).expand(first.value.args[0])           # every temporary resolved
+            while isinstance(a0, ast.Call) and norm_text(a0.func) in ('np.array', 'np.asarray') and a0.args:
+                a0 = a0.args[0]
             ppos, pforce, pdir, pframe = mk.params[:4]
             fv_ok = isinstance(a0, ast.BinOp) and isinstance(a0.op, ast.Mult) and {pforce} <= {x.id for x in ast.walk(a0) if isinstance(x, ast.Name)} \
                 and pdir in {x.id for x in ast.walk(a0) if isinstance(x, ast.Name)}
